@@ -315,6 +315,7 @@ def check_safe_evaluators(ctx):
         ctx.functions.add('%s:%s.%s' % (mod_, dc, slot))
         w = ctx.loc(prog.classes[dc].module, fn)
         problems = []
+        scan_cond = []
         if dc != cls:
             problems.append('the safe interface does not override %s (executes %s.%s)' % (slot, dc, slot))
         else:
@@ -365,6 +366,20 @@ def check_safe_evaluators(ctx):
                         wt = src(wh.test).replace(' ', '')
                         if ('%s==0' % flag) not in wt or '!=-1' not in wt or 'or' in [type(getattr(wh.test, 'op', None)).__name__.lower()]:
                             problems.append('scan condition %s does not stop at the sentinel / at the first failure' % src(wh.test))
+                        else:
+                            # the scan runs for every reaction: its condition is the sentinel test and the flag test, nothing else
+                            conj = []
+                            todo = [wh.test]
+                            while todo:
+                                t_ = todo.pop()
+                                if isinstance(t_, ast.BoolOp) and isinstance(t_.op, ast.And):
+                                    todo.extend(t_.values)
+                                else:
+                                    conj.append(util.canon_test(t_).replace(' ', ''))
+                            extra = [c_ for c_ in conj if c_ not in (util.canon_test(ast.parse('%s == 0' % flag, mode='eval').body).replace(' ', ''),)
+                                     and not (c_.endswith('!=-1') or c_.startswith('-1!='))]
+                            if extra:
+                                scan_cond.append('the requirement scan is skipped unless %s: safe mode holds for every propensity type' % extra)
                         pre = [util.stmt_key(x) for x in lp.body]
                         if '%s = 0' % flag not in pre:
                             problems.append('flag %s not reset for each reaction' % flag)
@@ -391,6 +406,10 @@ def check_safe_evaluators(ctx):
                         pos = src(inc[0].target)
                         if '%s = 0' % pos not in [util.stmt_key(x) for x in lp.body]:
                             problems.append('scan position %s not reset for each reaction' % pos)
+        if dc == cls:
+            # (its own obligation: skipping the scan fires under-supplied reactions - C06 - but leaves the sampled rates those of the model)
+            ctx.ob('R6.4-safe-scan-unconditional', '%s/%s' % (cls, slot), not scan_cond, w,
+                   'the requirement scan runs for every reaction, whatever its propensity type', '; '.join(scan_cond))
         ctx.ob('R6.4-safe-eval', '%s/%s' % (cls, slot), not problems, w,
                'a reaction whose listed species has state < amount gets propensity 0 and is not evaluated',
                '; '.join(problems) or 'requirement scan recognised')
@@ -398,8 +417,16 @@ def check_safe_evaluators(ctx):
         clamp = False
         for n in ast.walk(fn):
             if isinstance(n, ast.If) and isinstance(n.test, ast.Compare) and isinstance(n.test.ops[0], ast.Lt) \
-                    and util.is_const(n.test.comparators[0], 0) and src(n.test.left).startswith(args[1] + '['):
-                if any(util.stmt_key(x) == '%s = 0' % src(n.test.left) for x in n.body):
+                    and util.is_const(n.test.comparators[0], 0):
+                slot_ = src(n.test.left)
+                if not slot_.startswith(args[1] + '['):
+                    # the tested value is what was just stored into the slot: `dest[r] = v` directly in front of `if v < 0`
+                    blk = getattr(n._parent, 'body', [])
+                    prev = blk[blk.index(n) - 1] if n in blk and blk.index(n) > 0 else None
+                    if isinstance(prev, ast.Assign) and src(prev.value) == slot_ and src(prev.targets[0]).startswith(args[1] + '[') \
+                            and isinstance(n.test.left, (ast.Name, ast.Call)):
+                        slot_ = src(prev.targets[0])
+                if slot_.startswith(args[1] + '[') and any(util.stmt_key(x) == '%s = 0' % slot_ for x in n.body):
                     clamp = True
         ctx.ob('R6.4-safe-clamp', '%s/%s' % (cls, slot), clamp, w, 'a negative propensity is clamped to 0', '')
 
